@@ -220,6 +220,12 @@ func (l *ledgers) onDoChangeConfig(ni *nodeInc, ld *leader, c Config) {
 		if tn != nil && tn.inc.live() && tn.inc.obs.started {
 			o := tn.inc
 			lt, err := r.storage.getEntryTerm(last)
+			if err != nil {
+				// compacted on the leader since the round: the entry is committed, the ledger knows its term
+				if ct, ok := l.committed[last]; ok {
+					lt, err = ct, nil
+				}
+			}
 			held := o.obs.snapIndex >= last
 			if t, ok := o.obs.terms[last]; ok && err == nil && t == lt {
 				held = true
@@ -356,6 +362,11 @@ func (l *ledgers) onTimeoutNowEnter(ni *nodeInc, req *timeoutNowReq) {
 		return
 	}
 	R := ni.r
+	if R.term > L.term {
+		// the sender has been deposed and does not know yet: whatever it designates is moot
+		run.reach("timeout_now_from_deposed_leader")
+		return
+	}
 	run.reach("timeout_now_from_live_leader")
 	if !L.configs.Latest.isVoter(R.nid) {
 		run.violate("C16", "successor_not_voter", "successor_not_voter", "leader %v designated %v as successor, which is no voter in the leader's configuration %v", src.inc, ni, L.configs.Latest)
